@@ -70,7 +70,7 @@ def oracle_c09(case, impl, tag, ctx):
     execs = n if first is None else first + 1
     res, evs = parse_script_out(impl)
     target = {0: "insert into t values (1)", 1: "update t", 2: "bad sql", 3: "select v from t",
-              4: "select bad", 5: "check"}[kind]
+              4: "select bad", 5: "check", 6: "select typed from t"}[kind]
     runs = [e for e in evs if (e[0] == "run" and e[2] == target) or (e[0] == "cmd" and e[1] == target)]
     sleeps = [e for e in evs if e[0] == "sleep"]
     after = [e for e in evs if e[0] == "run" and e[2] == "select 'after'"]
